@@ -65,3 +65,114 @@ extern "C" void h_c01a_chunking()
     WITNESS("compared");
     VERIF_END();
 }
+
+// C01.f: the tokenizer's byte source (parser::getc / ungetc), both buffer forms: getc returns the next
+// byte of the stream as 0..255, -1 exactly when the buffer is exhausted (never for a data byte), and a
+// byte given back with ungetc is the next one returned -- across the point where the vector form
+// clears its buffer.  (step() itself is not encoded: see DESIGN.md.)
+struct open_parser : public parser {
+    open_parser(std::vector<char> &b, unsigned &p) : parser(b, p) {}
+    open_parser(char const *&a, char const *&b, char const *&c) : parser(a, b, c) {}
+    int g() { return getc(); }
+    void u(int c) { ungetc(c); }
+};
+extern "C" void h_c01f_byte_source()
+{
+    unsigned n = verif_param(0);
+    bool vec = verif_param(1) != 0;
+    unsigned char s[4];
+    for (unsigned i = 0; i < n; i++) s[i] = nondet_u8();
+    std::vector<char> &body = *new std::vector<char>(s, s + n);
+    unsigned &ptr = *new unsigned(0);
+    char *flat = (char *)malloc(n ? n : 1);
+    for (unsigned i = 0; i < n; i++) flat[i] = (char)s[i];
+    char const *&pb = *new char const *(flat), *&pp = *new char const *(flat), *&pe = *new char const *(flat + n);
+    open_parser &p = vec ? *new open_parser(body, ptr) : *new open_parser(pb, pp, pe);
+    // reference: position in s plus a stack of bytes given back
+    unsigned pos = 0; int back[4]; unsigned nb = 0;
+    int last = -1;
+    for (unsigned k = 0; k < 4; k++) {
+        bool unget = nondet_bool();
+        if (unget && last >= 0) {
+            p.u(last);
+            back[nb++] = last;
+            last = -1;
+        } else {
+            int exp;
+            if (nb > 0) exp = back[--nb];
+            else if (pos < n) exp = s[pos++];
+            else exp = -1;
+            int r = p.g();
+            CHECKM(r == exp, "getc differs from the next byte of the stream (0..255) / -1 at the end");
+            if (r >= 128) WITNESS("high byte");
+            if (r < 0) WITNESS("exhausted");
+            last = r;
+        }
+    }
+    WITNESS("done");
+    VERIF_END();
+}
+
+// C01.g: parser::step(), differential over the cut, from an *arbitrary* tokenizer state (inductive over
+// the byte stream): feeding two bytes in one read buffer and in two read buffers (refilled the way
+// http::some_headers_data_read does: resize + ptr=0) yields the same events, header lines and final
+// state.  Covers the push-back of the look-ahead byte (LWS folding) across a buffer boundary.
+struct ev_t { unsigned n; int code[4]; unsigned hl[4]; unsigned char hb[4][4]; };
+static void drain2(parser &p, ev_t &t, int max)
+{
+    for (int i = 0; i < max; i++) {
+        int r = p.step();
+        if (r == parser::more_data) return;
+        if (t.n < 4) {
+            t.code[t.n] = r;
+            t.hl[t.n] = p.header_.size();
+            for (unsigned j = 0; j < 4; j++) t.hb[t.n][j] = j < p.header_.size() ? p.header_[j] : 0;
+        }
+        t.n++;
+        if (r == parser::error_observerd || r == parser::end_of_headers) return;
+    }
+}
+static parser &arbitrary_parser(std::vector<char> &body, unsigned &ptr, unsigned st, unsigned bc, unsigned char h0, unsigned char h1)
+{
+    parser &p = *new parser(body, ptr);
+    p.state_ = (decltype(p.state_))st;
+    p.bracket_counter_ = bc;
+    p.header_.push_back((char)h0); p.header_.push_back((char)h1);
+    return p;
+}
+extern "C" void h_c01g_step_cut()
+{
+    unsigned st = verif_param(0);
+    unsigned bc = nondet_u8(); ASSUME(bc <= 2);
+    unsigned char h0 = nondet_u8(), h1 = nondet_u8(), b0 = nondet_u8(), b1 = nondet_u8();
+    ev_t A, B; A.n = 0; B.n = 0;
+    std::vector<char> &ba = *new std::vector<char>(); ba.reserve(4); ba.push_back((char)b0); ba.push_back((char)b1);
+    unsigned &pa = *new unsigned(0);
+    parser &P = arbitrary_parser(ba, pa, st, bc, h0, h1);
+    drain2(P, A, 3);
+    std::vector<char> &bb = *new std::vector<char>(); bb.reserve(4); bb.push_back((char)b0);
+    unsigned &pb = *new unsigned(0);
+    parser &Q = arbitrary_parser(bb, pb, st, bc, h0, h1);
+    drain2(Q, B, 2);
+    bool stopped = B.n > 0 && B.n <= 4 && (B.code[B.n - 1] == parser::error_observerd || B.code[B.n - 1] == parser::end_of_headers);
+    if (!stopped) {
+        bb.resize(1); bb[0] = (char)b1; pb = 0;
+        drain2(Q, B, 3);
+    }
+    CHECKM(A.n == B.n, "number of tokenizer events depends on the cut");
+    for (unsigned i = 0; i < A.n && i < 4; i++) {
+        CHECKM(A.code[i] == B.code[i], "event kind depends on the cut");
+        if (A.code[i] == parser::got_header) {
+            CHECKM(A.hl[i] == B.hl[i], "header line length depends on the cut");
+            for (unsigned j = 0; j < 4; j++) CHECKM(A.hb[i][j] == B.hb[i][j], "header line content depends on the cut");
+            WITNESS("header line");
+        }
+    }
+    bool a_stopped = A.n > 0 && A.n <= 4 && (A.code[A.n - 1] == parser::error_observerd || A.code[A.n - 1] == parser::end_of_headers);
+    if (!a_stopped) {
+        CHECKM(P.state_ == Q.state_ && P.bracket_counter_ == Q.bracket_counter_, "tokenizer state after the two bytes depends on the cut");
+        CHECKM(P.header_.size() == Q.header_.size(), "pending header text depends on the cut");
+        WITNESS("both consumed");
+    }
+    VERIF_END();
+}
